@@ -967,3 +967,27 @@ func ParseFormPost(body []byte) (string, url.Values) {
 
 // SetSubject makes Sess an rfc7523.Session.
 func (s *Sess) SetSubject(sub string) { s.Subject = sub }
+
+// AuthorizeDeny drives the authorization endpoint up to the consent screen and
+// then reports the user's refusal the way the README does
+// (WriteAuthorizeError with ErrAccessDenied).
+func (w *World) AuthorizeDeny(q url.Values) *AuthzResult {
+	res := &AuthzResult{}
+	r := httptest.NewRequest("GET", "https://as.example/oauth2/auth?"+q.Encode(), nil)
+	rw := httptest.NewRecorder()
+	ctx := context.Background()
+	ar, err := w.P.NewAuthorizeRequest(ctx, r)
+	if err != nil {
+		res.Err = errInfo(err)
+		res.Phase = "request"
+		w.P.WriteAuthorizeError(ctx, rw, ar, err)
+		w.authzFinish(rw, res)
+		return res
+	}
+	derr := fosite.ErrAccessDenied.WithHint("The resource owner denied the request.")
+	res.Err = errInfo(derr)
+	res.Phase = "consent"
+	w.P.WriteAuthorizeError(ctx, rw, ar, derr)
+	w.authzFinish(rw, res)
+	return res
+}
